@@ -213,6 +213,9 @@ Definition phys (t : N) : N := t / 262144.
 Definition has_prim (c : crec) (ks : list N) : bool := fb c FHasm && mem (cn c FPrim) ks.
 Definition async_kept (c : crec) : bool := fb c FTriedA && negb (fb c FFb).
 Definition commit_point_pw (c : crec) : bool := fb c FTriedA || fb c FTried1.
+(* the owner still runs async commit or 1PC: a successful prewrite may be the commit point *)
+Definition onepc_on (c : crec) : bool := fb c FTried1 && negb (fb c FFb1).
+Definition cp_active (c : crec) : bool := async_kept c || onepc_on c.
 (* every primary commit sent so far has a definite negative answer, or one answered "lock gone" *)
 Definition neg_ok (c : crec) : bool :=
   (cn c FPcOk =? 0) && ((cn c FPcNeg =? cn c FPcSent) || fb c FPcRb).
@@ -283,15 +286,18 @@ Definition step_pw_deliver (s : sys) (r T : N) (ks : list N) (x : pw_res) : res 
        | _ => true end) else S_onepc;
   let c := getc s T in
   chk (negb (commit_point_pw c) || forallb (fun k => kcnt c KDlv k + occ k ks <=? kcnt c KSent k) ks) else N_dup_prewrite;
+  (* a request that locks nothing (CheckNotExists keys only) reports at most the requested min-commit ts / start+1 *)
   chk (match x with
-       | PwOk m o => negb (commit_point_pw c && fb c FHasm && negb (m =? 0) && (o =? 0)) || existsb (fun k => mem k (c_lm c)) ks
+       | PwOk m o => negb (commit_point_pw c && fb c FHasm && negb (m =? 0) && (o =? 0)) || existsb (fun k => mem k (c_lm c)) ks ||
+                     sent_by s (fun e => match e with EPwSend r' s' _ ks' _ _ mr _ _ => (r' =? r) && (s' =? T) && leqb ks' ks && (m <=? N.max mr (T + 1)) | _ => false end)
        | _ => true end) else S_mincommit;
   chk (match x with PwOk m o => negb (o =? 0) || forallb (mc_consistent s T m) ks | _ => true end) else S_mincommit;
   let c := add_kl c KDlv ks in
   let c := match x with
            | PwOk m o =>
                let c := if o =? 0 then add_lam c (filter (fun k => match kget s T k with Unlocked => true | _ => false end) ks) m else c in
-               if commit_point_pw c && (o =? 0) && ((m =? 0) || fb c FTried1) then setn c FStFb 1 else c
+               let req1 := sent_by s (fun e => match e with EPwSend r' s' _ ks' _ true _ _ _ => (r' =? r) && (s' =? T) && leqb ks' ks | _ => false end) in
+               if commit_point_pw c && (o =? 0) && ((m =? 0) || req1) then setn c FStFb 1 else c
            | _ => add_kl c KNegD ks
            end in
   let s1 := setc (add_dlv s (EPwReply r T ks x)) T c in
@@ -314,8 +320,8 @@ Definition step_pw_reply (s : sys) (e : event) (r T : N) (ks : list N) (x : pw_r
   let c := match x with
            | PwOk m o =>
                let c := add_pwok c ks in
-               let c := setn c FMinc (N.max (cn c FMinc) m) in
-               let c := if o =? 0 then setn (setn c FFb1 1) (if fb c FTried1 then FFb else FFb1) 1 else setn c F1pcTs o in
+               let c := if negb (fb c FHasm) || existsb (fun k => mem k (c_lm c)) ks then setn c FMinc (N.max (cn c FMinc) m) else c in
+               let c := if o =? 0 then (if onepc_on c then setn (setn c FFb1 1) FFb 1 else setn c FFb1 1) else setn c F1pcTs o in
                if m =? 0 then setn c FFb 1 else c
            | PwErr _ => setn (add_kl c KNeg ks) FPwErr 1
            | PwRegion => add_kl c KNeg ks
@@ -374,7 +380,7 @@ Definition step_cm_reply (s : sys) (e : event) (r T C : N) (ks : list N) (x : cm
 Definition step_rb_send (s : sys) (e : event) (r T : N) (ks : list N) : res :=
   let c := getc s T in
   chk (negb (crashed s r)) else X_crashed;
-  chk (neg_ok c && (negb (commit_point_pw c) || err_ok c)) else R2_rollback_after_commit;
+  chk (neg_ok c && (negb (cp_active c) || err_ok c)) else R2_rollback_after_commit;
   Ok (setc (add_sent s e) T (setn c FDead 1)).
 
 Definition step_rb_deliver (s : sys) (r T : N) (ks : list N) (x : rb_res) : res :=
@@ -398,8 +404,9 @@ Definition step_cts_deliver (s : sys) (r T p : N) (st : cts_st) : res :=
   | StCommitted C => match step_key s1 T p (tr_cts_committed C) with Some s' => Ok s' | None => Rej S_cts_committed end
   | StRolledBack =>
       chk (negb (fb c FHasm && negb (p =? cn c FPrim) && match kget s T p with Locked _ => true | _ => false end)) else S_cts_secondary;
-      (* an async-commit lock is rolled back by CheckTxnStatus only when forced to fall back to 2PC *)
-      let asyncl := match kget s T p with Locked m0 => negb (m0 =? 0) | _ => false end in
+      (* an async-commit lock is rolled back by CheckTxnStatus only when forced to fall back to 2PC
+         (unless a whole-region resolve already removed it) *)
+      let asyncl := match kget s T p with Locked m0 => negb (m0 =? 0) && negb (existsb (fun sc => (fst sc =? T) && (snd sc =? 0)) (s_wr s)) | _ => false end in
       chk (negb asyncl || sent_by s (fun e => match e with ECtsSend r' s' p' _ _ _ true _ => (r' =? r) && (s' =? T) && (p' =? p) | _ => false end)) else S_cts_rolledback;
       match step_key (if asyncl then setc s1 T (setn c FStFb 1) else s1) T p tr_rb with Some s' => Ok s' | None => Rej S_cts_rolledback end
   | StLocked _ m a secs =>
@@ -472,7 +479,7 @@ Definition step_told (s : sys) (T : N) (t : told_res) : res :=
            chk (negb (cn c FPcOk =? 0) || negb (cn c F1pcTs =? 0) ||
                 (async_kept c && fb c FHasm && subset (c_lm c) (c_pwok c) && pw_closed c)) else R7_ok_without_commit;
            Ok (setc s T (setn c FTold 1))
-  | TErr => chk (neg_ok c && (negb (commit_point_pw c) || err_ok c) && (cn c F1pcTs =? 0)) else R7_err_with_pending;
+  | TErr => chk (neg_ok c && (negb (cp_active c) || err_ok c) && (cn c F1pcTs =? 0)) else R7_err_with_pending;
             Ok (setc s T (setn (setn c FTold 3) FDead 1))
   | TUndet => chk ((cn c FPcRep <? cn c FPcSent) || (commit_point_pw c && (cn c FPwRep <? cn c FPwSent))) else R7_undet_without_pending;
               Ok (setc s T (setn (setn c FTold 2) FDead 1))
